@@ -1,5 +1,5 @@
 """C08 — files are only modified inside an explicitly write-enabled context.
-Call sequences over {allow_write, enter, exit, exit-by-exception} + 10 mutator requests + 14 readers, run on
+Call sequences over {allow_write, enter, exit, exit-by-exception} + 12 mutator requests + 14 readers, run on
 a real Tdf object and on Access.v (op 39); observed after every call: raised? (mutators), file bytes
 changed?, handler state, _inside_context."""
 import hashlib
@@ -12,7 +12,7 @@ from harness import blocks, codec, common, container
 from harness.container import T0, Clock, scripted_clock
 
 CONTROL = ["allow_write", "enter", "exit", "exit_exn"]
-MUTATORS = ["add_block", "add_block_dup", "remove_block", "remove_absent", "replace_block",
+MUTATORS = ["add_block", "add_block_dup", "remove_block", "remove_absent", "replace_block", "replace_equal", "set_equal",
             "set_data3D", "set_force_and_torque", "set_force_platforms_data", "set_events", "set_emg"]
 READERS = ["blocks", "get_block_index", "get_block_type", "getitem", "data3D", "events", "emg", "has_data3D",
            "has_events", "len", "nBytes", "eq", "repr", "copy"]
@@ -99,6 +99,16 @@ def perform(sess, name):
         k = next((k for k in blocks.KINDS if blocks.TY[k] in present), None)
         mcall = [5, 0, 1 if k else 0]
         thunk = lambda: t.replace_block(spec(k or "EV", 0))
+    elif name in ("replace_equal", "set_equal"):
+        # a request that changes nothing in the block's content (the block read from the file, handed back): it is
+        # still a mutation — it needs a write context, and it rewrites the entry's dates
+        ev = blocks.TY["EV"] in present
+        mcall = [5, 0 if name == "replace_equal" else 2, 1 if ev else (0 if name == "replace_equal" else 1)]
+        same = SPECS[("EV", 1)].build()
+        if name == "replace_equal":
+            thunk = lambda: t.replace_block(same)
+        else:
+            thunk = lambda: setattr(t, "events", same)
     elif name.startswith("set_"):
         attr = name[4:]
         kind = {"data3D": "D3", "force_and_torque": "FT", "force_platforms_data": "PD", "events": "EV", "emg": "EM"}[attr]
@@ -273,8 +283,8 @@ def run(chk):
     chk.extra["exhaustive_tail_length"] = L
     chk.extra["prefix_modes"] = len(prefixes)
     chk.rule = ("call sequences on a Tdf object over a file holding one block: every tail of length <= L (stated in "
-                "exhaustive_tail_length) over the 28-call alphabet {allow_write, enter, exit, exit-by-exception} + 10 mutator "
-                "requests (add valid/duplicate, remove present/absent, replace, the five setters) + 14 readers, after each of 10 "
+                "exhaustive_tail_length) over the 30-call alphabet {allow_write, enter, exit, exit-by-exception} + 12 mutator "
+                "requests (add valid/duplicate, remove present/absent, replace with another / with equal content, the five setters, a setter with equal content) + 14 readers, after each of 10 "
                 "prefix modes (no context; allow_write only; read-only context; write context; re-entered after a write context; "
                 "after exit by exception; re-entered after that; allow_write inside a read-only context; allow_write consumed by "
                 "a reader; after a successful write session), plus random sequences of 3-12 calls; observed after each call: "
